@@ -31,6 +31,10 @@ def process_part(ctx):
         cases.append(("malformed_cli", ["--" + nm, val], None, True))
         if val:
             cases.append(("malformed_cfg", [], "%s=%s\n" % (nm, val), True))
+    # the same mistakes on a last line that has no final newline
+    cases.append(("unknown_cfg", [], "GridSize=32\nNoSuchOption=1", True))
+    cases.append(("malformed_cfg", [], "GridSize=32\nalpha0=abc", True))
+    cases.append(("malformed_cfg", [], "StepsPerTs=-x", True))
     cases.append(("missing_cfg", ["--config", "does_not_exist.cfg"], None, False))
     cases.append(("missing_cfg", ["--config", "dir/also/missing.cfg"], None, False))
     cases.append(("garbage_cfg", [], "\x00\x01\x02 not a config [[[\n=\n", True))
